@@ -45,3 +45,45 @@ func (l *LinkedList) VerifItems() [][]byte {
 	}
 	return out
 }
+
+// VerifDump returns the raw pointer structure for the whole-structure comparison with the model:
+// the length field, the data of every node met from head following next, the data of every node met
+// from tail following prev, whether head.prev / tail.next are nil ("-" when head / tail is nil), and
+// whether a walk was cut off because it did not end.
+func (l *LinkedList) VerifDump() (length int64, fwd, bwd [][]byte, headPrev, tailNext string, fwdLoop, bwdLoop bool) {
+	limit := l.length + 1_000_000
+	if limit < 1_000_000 {
+		limit = 1_000_000
+	}
+	for n := l.head; n != nil; n = n.next {
+		if int64(len(fwd)) > limit {
+			fwdLoop = true
+			break
+		}
+		fwd = append(fwd, n.data)
+	}
+	for n := l.tail; n != nil; n = n.prev {
+		if int64(len(bwd)) > limit {
+			bwdLoop = true
+			break
+		}
+		bwd = append(bwd, n.data)
+	}
+	headPrev, tailNext = "-", "-"
+	if l.head != nil {
+		headPrev = "0"
+		if l.head.prev == nil {
+			headPrev = "1"
+		}
+	}
+	if l.tail != nil {
+		tailNext = "0"
+		if l.tail.next == nil {
+			tailNext = "1"
+		}
+	}
+	return l.length, fwd, bwd, headPrev, tailNext, fwdLoop, bwdLoop
+}
+
+// VerifSize exposes the unexported size() (the walk LRange / LTrim use for negative indexes).
+func (l *LinkedList) VerifSize() int64 { return l.size() }
